@@ -19,6 +19,7 @@
 #include <cstdio>
 #include <cstdlib>
 #include <cstring>
+#include <string>
 
 namespace sim {
 namespace {
@@ -336,7 +337,12 @@ void acquire(MutexSt* m) {
     Th& t = g.th[me];
     bool contended = false;
     while (m->owner != -1) {
-        if (m->owner == me) rt_fatal("machinery", "recursive lock of sim::Mutex");
+        // a std::mutex locked again by its owner: undefined behaviour, in practice the thread waits for itself
+        if (m->owner == me) {
+            char buf[2048];
+            describe(buf, sizeof buf);
+            rt_fatal("deadlock", (std::string("a thread locks a mutex it already holds (self-deadlock); ") + buf).c_str());
+        }
         contended = true;
         t.state = S_MUTEX; t.obj = m;
         schedule();
